@@ -118,7 +118,9 @@ func init() {
 		if err != nil {
 			return map[string]interface{}{"err": err.Error()}
 		}
-		return map[string]interface{}{"enc": hx(b)}
+		out := map[string]interface{}{"enc": hx(b)}
+		retain(out, "aperenc", b)
+		return out
 	}
 	lineCmds["aperdec"] = func(in map[string]interface{}) map[string]interface{} {
 		t, pre := aperMkType(in)
